@@ -550,8 +550,13 @@ class C12(Property):
         "Flatland.C12.Proofs.formPairs_flatten",
         "Flatland.C12.Proofs.form_posts_flatten",
         "Flatland.C12.Proofs.posted_keys_are_paths",
+        "Flatland.C12.Proofs.form_roundtrip_generator",
+        "Flatland.C12.Proofs.form_roundtrip_generator_total",
+        "Flatland.C12.Proofs.form_roundtrip_fresh_generator",
+        "Flatland.C12.Proofs.prepareTag_of_renders",
         "Flatland.C12.Proofs.exForm_ok",
         "Flatland.C12.Proofs.exForm_posts",
+        "Flatland.C12.Proofs.exForm_posts_generator",
     ]
     generated_obligations = []
     level_text = "proof"
@@ -559,7 +564,8 @@ class C12(Property):
                   "[textarea: minus one leading LF, KF-C12-f]; checkbox/radio with a literal (scalar, Boolean, Array-of-String binds), "
                   "Boolean checkbox without literal, <option value=lit> selected iff match (any bind kind) and what it posts inside a "
                   "named select; the <select> itself carries the flat name (select_carries_name); label for = control id for <input> "
-                  "controls.  WHOLE FORM (theorem + oracle): form_roundtrip / form_roundtrip_total -- for every element tree "
+                  "controls.  WHOLE FORM (theorem + oracle): form_roundtrip / form_roundtrip_total / form_roundtrip_generator(_total) "
+                  "(the last two through prepareTag, the way the runner makes the calls) -- for every element tree "
                   "(Dict / List / scalar / Boolean / Array or MultiValue of strings / JoinedString) and every control group form "
                   "mode renders per leaf (text-like input | textarea | button | radio group | select+options; Boolean checkbox; "
                   "one checkbox or one option of a <select multiple> per Array member; author attributes such as a stale "
@@ -579,8 +585,9 @@ class C12(Property):
         "the browser's successful-control rule is written twice (Lean `submitted`, Python `posted_of`) and compared on every render",
         "the whole-form theorem speaks about the flat model's flatten (Flatland/Flat.lean, the subject of C01/C07); on the real "
         "code the oracle states the same clause directly (form-pairs, form-flatten) and closes the loop through from_flat",
-        "the form theorem renders every control on one unchanged context (form_roundtrip_total: default settings leave the "
-        "context as it was); the Lean runner threads the generator through the tag calls",
+        "the form theorems make every tag call on one generator (form_roundtrip_generator: through prepareTag, as the runner "
+        "does); the runner threads the generator from call to call, and prepareTag_of_renders shows each call of a form "
+        "hands back the context it was given (default settings: no tabindex counter)",
     ]
     assumptions = [
         "one whole-Array bind per case at most (its repr-style display text is an input of the model)",
@@ -693,6 +700,38 @@ class C12(Property):
         cases.append(one("x", [rd([1], "input", [["type", S("checkbox")], ["value", S("q")]], "check", lit="q"),
                                rd([1], "input", [["type", S("text")]], "value")],
                          extra_fields=[{"t": "array", "flavour": "multi", "name": "m", "strip": True, "members": ["p", "q"]}]))
+        # the non-vacuity form of the whole-form theorem (Proofs/C12FormExamples.lean `exForm`): every leaf kind and
+        # every control group of form mode, stale checked= / selected= on some of them.  Lean proves that a browser
+        # posts f_a, f_b, f_l_0_x, f_l_0_b, f_l_1_x, f_arr (2x), f_m (2x), f_s, f_k, f_j for it (`exForm_posts_generator`)
+        yes = lambda u: {"t": "bool", "name": "b", "true": "yes", "u": u}
+        row = lambda x, b: {"t": "dict", "name": None, "fields": [{"t": "leaf", "name": "x", "py": "str", "u": x}, yes(b)]}
+        ex_tree = {"t": "dict", "name": "f", "fields": [
+            {"t": "leaf", "name": "a", "py": "str", "u": "hello"},
+            {"t": "bool", "name": "b", "true": "1", "u": "1"},
+            {"t": "bool", "name": "c", "true": "1", "u": ""},
+            {"t": "list", "name": "l", "members": [row("1 & <2>", "yes"), row("2", "")], "template": row("", "")},
+            {"t": "array", "flavour": "array", "name": "arr", "strip": True, "members": ["p", "q r"]},
+            {"t": "array", "flavour": "array", "name": "m", "strip": False, "members": [" p", " p"]},
+            {"t": "leaf", "name": "s", "py": "str", "u": "v1"},
+            {"t": "leaf", "name": "k", "py": "str", "u": "go"},
+            {"t": "array", "flavour": "joined", "name": "j", "strip": True, "members": ["a", "b"]}]}
+        stale = ["checked", S("checked")]
+        box = lambda sel, *extra: rd(sel, "input", [["type", S("checkbox")]] + list(extra), "check", lit=None)
+        chk = lambda sel, ty, lit, *extra: rd(sel, "input", [["type", S(ty)], ["value", S(lit)]] + list(extra), "check", lit=lit)
+        opt = lambda sel, within, lit, *extra: rd(sel, "option", [["value", S(lit)]] + list(extra), "option", within=within, lit=lit)
+        ex_renders = [
+            rd([0], "input", [["type", S("text")]], "value"),
+            box([1], stale), box([2], stale),
+            rd([3, 0, 0], "textarea", [], "value"), box([3, 0, 1]),
+            chk([3, 1, 0], "radio", "9", stale), chk([3, 1, 0], "radio", "2"), chk([3, 1, 0], "radio", "x", stale),
+            box([3, 1, 1]),
+            chk([4], "checkbox", "p"), chk([4], "checkbox", "q r", stale),
+            rd([5], "select", [["multiple", S("multiple")]], "select"), opt([5], 11, " p"), opt([5], 11, " p"),
+            rd([6], "select", [], "select"), opt([6], 14, "v1"), opt([6], 14, "v2", ["selected", S("selected")]),
+            rd([7], "button", [], "value"),
+            rd([8], "input", [["type", S("hidden")]], "value")]
+        cases.append({"markup": "xhtml", "settings": [], "form_mode": True, "tree": ex_tree,
+                      "renders": [dict(r, form=True) for r in ex_renders]})
         return [_fix_arr_shown(c) for c in cases]
 
     def generate(self, rng, n, tier):
